@@ -105,8 +105,8 @@ def gen_field_spec(rng, mesh_idx, ncells, ndim, dims, nv=None, cls=None, dtype=N
                                                         "complex128", "complex128", "complex64", "cvalue"])
     cplx = dtype in ("complex128", "complex64", "cvalue")
     cls = cls or rng.choice(["int", "int", "int", "pow2", "pyth" if cplx else "int", "exp" if (not cplx and nv == 1) else "int"])
-    if cls == "pyth" and not cplx:
-        cls = "int"
+    if cls == "pyth" and (not cplx or dtype == "complex64"):
+        cls = "int"  # hypot in single precision is not exact on Pythagorean pairs
     if cls == "pow2" and dtype in ("int64", "int32"):
         cls = "int"
     re, im = gen_values(rng, ncells * nv, cls, cplx)
@@ -181,9 +181,18 @@ def gen_arr(rng, shape, pow2=False, allow_cplx=True, py=None, cls=None):
 
 
 class TreeGen:
-    def __init__(self, rng, fields, n, maxdepth):
+    def __init__(self, rng, fields, n, maxdepth, allow_cplx=True):
         self.rng, self.fields, self.n, self.maxdepth = rng, fields, list(n), maxdepth
         self.infos = [spec_info(k, fs) for k, fs in enumerate(fields)]
+        self.allow_cplx = allow_cplx
+
+    def num(self, **kw):
+        kw.setdefault("allow_cplx", self.allow_cplx)
+        return gen_num(self.rng, **kw)
+
+    def arr(self, shape, **kw):
+        kw.setdefault("allow_cplx", self.allow_cplx)
+        return gen_arr(self.rng, shape, **kw)
 
     def leaf(self, want=None):
         cand = [g for g in self.infos if want is None or want(g)]
@@ -197,12 +206,12 @@ class TreeGen:
         rng = self.rng
         r = rng.random()
         if r < 0.4:
-            return gen_num(rng, pow2=pow2)
+            return self.num(pow2=pow2)
         if r < 0.75:
             k = L.nv if L.nv != 1 else rng.choice([1, 2, 3])
-            return gen_arr(rng, [k], pow2=pow2)
+            return self.arr([k], pow2=pow2)
         m = L.nv if L.nv != 1 else rng.choice([1, 2, 3])
-        return gen_arr(rng, self.n + [m], pow2=pow2, py="ndarray")
+        return self.arr(self.n + [m], pow2=pow2, py="ndarray")
 
     def pow2_tree(self, depth, nv):
         """a field subtree all of whose values are +-2^k (times i), with nv components or scalar"""
@@ -312,7 +321,7 @@ class TreeGen:
             else:
                 R = self.leaf(lambda g: g.nonneg_int and (g.nv == L.nv or g.nv == 1 or L.nv == 1))
                 if R is None:
-                    R = gen_arr(rng, [L.nv if L.nv != 1 else rng.choice([1, 2])], allow_cplx=False, cls="exp")
+                    R = self.arr([L.nv if L.nv != 1 else rng.choice([1, 2])], allow_cplx=False, cls="exp")
                 hi, lo = 2 * L.hi + 2, min(2 * L.lo, 0)
             if not self.budget_ok(hi, lo):
                 return L
@@ -360,10 +369,10 @@ class TreeGen:
         if op in ("umax", "umin") and L.cplx and rng.random() < 0.7:
             op = "uadd"
         if op == "udiv":
-            R = self.pow2_tree(depth - 2, L.nv) or gen_num(rng, pow2=True)
+            R = self.pow2_tree(depth - 2, L.nv) or self.num(pow2=True)
             hi, lo = L.hi - R.lo + 2, L.lo - R.hi
         elif op == "upow":
-            R = gen_num(rng, nonneg_int=True)
+            R = self.num(nonneg_int=True)
             hi, lo = 3 * L.hi + 3, min(3 * L.lo, 0)
         else:
             r = rng.random()
@@ -376,11 +385,11 @@ class TreeGen:
                         break
             if R is None:
                 if rng.random() < 0.5:
-                    R = gen_num(rng)
+                    R = self.num()
                 elif rng.random() < 0.5:
-                    R = gen_arr(rng, [rng.choice([L.nv, 1]) if L.nv != 1 else rng.choice([1, 3])], py="ndarray")
+                    R = self.arr([rng.choice([L.nv, 1]) if L.nv != 1 else rng.choice([1, 3])], py="ndarray")
                 else:
-                    R = gen_arr(rng, self.n + [rng.choice([L.nv, 1]) if L.nv != 1 else rng.choice([1, 2])], py="ndarray")
+                    R = self.arr(self.n + [rng.choice([L.nv, 1]) if L.nv != 1 else rng.choice([1, 2])], py="ndarray")
             if op == "umul":
                 hi, lo = L.hi + R.hi + 1, L.lo + R.lo
             else:
@@ -403,7 +412,7 @@ class TreeGen:
                     R = c
                     break
         if R is None:
-            R = gen_arr(rng, [L.nv])
+            R = self.arr([L.nv])
         hi, lo = L.hi + R.hi + 3, L.lo + R.lo
         if not self.budget_ok(hi, lo):
             return L
@@ -433,7 +442,7 @@ class TreeGen:
                     R = c
                     break
         if R is None:
-            R = gen_arr(rng, [3])
+            R = self.arr([3])
         hi, lo = L.hi + R.hi + 2, L.lo + R.lo
         if not self.budget_ok(hi, lo):
             return L
@@ -452,9 +461,9 @@ class TreeGen:
         if r < 0.55:
             R = self.gen(depth - 1)
         elif r < 0.8:
-            R = gen_num(rng)
+            R = self.num()
         else:
-            R = gen_arr(rng, [rng.choice([1, 2, 3])], py=rng.choice(["list", "tuple", "ndarray"]))
+            R = self.arr([rng.choice([1, 2, 3])], py=rng.choice(["list", "tuple", "ndarray"]))
         a, b = (L, R)
         if not R.field and rng.random() < 0.35 and R.node["py"] not in ("ndarray", "np.float64", "np.int64", "np.complex128"):
             a, b = R, L
@@ -488,7 +497,8 @@ def malformed_tree(rng, fields, n, depth):
     def odd_arr():
         shapes = [[rng.randint(1, 4)], list(n), list(n) + [rng.randint(1, 3)], [1] * len(n) + [rng.randint(1, 3)], [n[0]],
                   [], [rng.randint(1, 3), rng.randint(1, 3)], list(n[1:]) + [rng.randint(1, 3)], [1, 1]]
-        return gen_arr(rng, rng.choice(shapes), py=rng.choice(["list", "ndarray", "ndarray", "tuple"]))
+        shape = rng.choice(shapes)
+        return gen_arr(rng, shape, py=rng.choice(["list", "ndarray", "ndarray", "tuple"]) if shape else "ndarray")
 
     def go(d):
         if d <= 0 or rng.random() < 0.3:
@@ -512,9 +522,9 @@ def malformed_tree(rng, fields, n, depth):
             a = tg.leaf()
         op = rng.choice(["add", "sub", "mul", "pow", "dot", "cross", "shl", "uadd", "umul", "umax", "usub", "add", "mul"])
         if op == "pow":
-            b = gen_num(rng, nonneg_int=True) if rng.random() < 0.7 else b
+            b = gen_num(rng, nonneg_int=True)
             if not a.field:
-                a, b = tg.leaf(), a
+                a = tg.leaf()
         if op in ("dot", "cross", "shl") and not a.field and b.field and b.node.get("t") is not None:
             if a.node.get("py") in ("ndarray", "np.float64", "np.int64", "np.complex128"):
                 a, b = b, a  # ndarray @ / & / << Field is outside the model
@@ -547,7 +557,7 @@ def cases(rng, tier):
     for _ in range(110 if quick else 900):
         spec, dims, fields = gen_env(rng, tier, same_nv=True)
         fields = [f for f in fields if f["im"] is None] or [gen_field_spec(rng, 0, int(np.prod(spec["n"])), len(spec["n"]), dims, dtype="float64")]
-        tg = TreeGen(rng, fields, spec["n"], 2)
+        tg = TreeGen(rng, fields, spec["n"], 2, allow_cplx=False)
         which = rng.choice(["angle", "angle", "phase", "tdiv"])
         if which == "angle":
             L = tg.gen(rng.randint(0, 2))
@@ -837,7 +847,7 @@ class Evaluator:
             if op == "cross" and not (k == 3 and l == 3):
                 self.fail(f"NVDIM: cross accepted fields with {k} and {l} components")
         # ---- a∘b and b∘a are the same field
-        if op in ("add", "mul") and (lf or rf):
+        if op in ("add", "mul") and (lf or rf) and not (lf and rf and mesh_state(lv.mesh)[:6] != mesh_state(rv.mesh)[:6]):
             try:
                 r2 = PYOP[op](rv, lv)
                 err2 = None
@@ -958,6 +968,7 @@ def check_cellwise(case, res, fields, fail):
     n = tuple(int(k) for k in res.mesh.n)
     ops = set(tree_ops(case["expr"]))
     loose = bool(ops & INEXACT_OPS) or case["kind"] in ("angle", "phase", "tdiv")
+    single = any(fs["dtype"] in ("float32", "complex64") for fs in case["fields"])
     with np.errstate(all="ignore"):
         for idx in np.ndindex(*n):
             try:
@@ -971,8 +982,15 @@ def check_cellwise(case, res, fields, fail):
             if exp.shape != got.shape:
                 fail(f"CELL: cell {idx} has {got.shape[0]} components, the expression evaluated at that cell has shape {exp.shape}")
                 return
-            if loose:
-                ok = np.allclose(got, exp, rtol=1e-12, atol=1e-300, equal_nan=True)
+            if case["kind"] == "angle":
+                # arccos is ill-conditioned at +-1 and gives nan when rounding pushes |cos| above 1: compare cosines
+                ok = np.all(np.isnan(got) | np.isnan(exp) | np.isclose(np.cos(got), np.cos(exp), rtol=0, atol=1e-5 if single else 1e-9))
+            elif case["kind"] == "phase":
+                # transcendental leaf: signed zeros / |cos| rounding above 1 give +-pi or nan on either side (IEEE, outside the property)
+                ok = np.all(np.isnan(got) | np.isnan(exp) | np.isclose(got, exp, rtol=1e-5 if single else 1e-9, atol=1e-5 if single else 1e-7)
+                            | np.isclose(np.abs(got - exp), 2 * np.pi, atol=1e-5) | np.isclose(np.abs(got - exp), np.pi, atol=1e-5))
+            elif loose:
+                ok = np.allclose(got, exp, rtol=1e-5 if single else 1e-12, atol=1e-300, equal_nan=True)
             else:
                 ok = np.array_equal(got, exp)
             if not ok:
@@ -1195,26 +1213,25 @@ def compare(case, obs, rs):
     got, mj = obs["res"], r["ok"]
     if not cmp_meta(name, got, mj, dis):
         return dis
+    single = any(fs["dtype"] in ("float32", "complex64") for fs in case["fields"])
     if case["kind"] == "angle":
         # model with sq=id, acos=id gives d/(A*B); with sq=1 gives d; cos = sign(d) * sqrt(d/(A*B) * d)
         m1, m2 = mj["data"], rs[1]["ok"]["data"]
         for k, (z, s1, s2) in enumerate(zip(got["data"], m1, m2)):
             v1, d = parse_gq(s1)[0], parse_gq(s2)[0]
-            if v1 == 0 and d != 0 or (d == 0 and z is None):
-                if z is not None:
-                    dis.append(f"angle: cell {k}: a zero vector is involved, impl gives {z} instead of nan")
-                    break
-                continue
-            if z is None:
-                # zero vector in the model?  (d == 0 and v1 == 0 covers it)
-                if not (d == 0 and v1 == 0):
-                    dis.append(f"angle: cell {k}: impl nan, model cos^2 {v1 * d}")
-                    break
-                continue
+            zero_vec = (v1 == 0 and d != 0)  # Rat division by a zero norm gives 0 in the model
             c2 = float(v1 * d)
             cosm = (1.0 if d > 0 else -1.0 if d < 0 else 0.0) * (max(c2, 0.0) ** 0.5)
-            if abs(np.cos(float(F(z[0]))) - cosm) > 1e-7 or F(z[1]) != 0:
-                # arccos is ill-conditioned at +-1: compare the cosines
+            if z is None:
+                # nan: a zero vector (0/0), or rounding pushed |cos| above 1 for (anti)parallel vectors (IEEE, outside the model)
+                if not (zero_vec or (d == 0 and v1 == 0) or abs(cosm) >= 1 - 1e-6):
+                    dis.append(f"angle: cell {k}: impl nan, model cos {cosm}")
+                    break
+                continue
+            if zero_vec:
+                dis.append(f"angle: cell {k}: a zero vector is involved, impl gives {z} instead of nan")
+                break
+            if abs(np.cos(float(F(z[0]))) - cosm) > (1e-5 if single else 1e-9) or F(z[1]) != 0:
                 dis.append(f"angle: cell {k}: cos(impl) {np.cos(float(F(z[0])))} vs model {cosm}")
                 break
         return dis
@@ -1225,8 +1242,17 @@ def compare(case, obs, rs):
         for k, (z, s) in enumerate(zip(got["data"], rs[1]["ok"]["data"])):
             a, b = parse_gq(s)
             exp = float(np.angle(complex(float(a), float(b))))
-            if z is None or abs(float(F(z[0])) - exp) > 1e-12:
-                dis.append(f"phase: position {k}: impl {z} vs angle of model value {s} = {exp}")
+            if z is None:
+                dis.append(f"phase: position {k}: impl not finite")
+                break
+            v = float(F(z[0]))
+            tol = 1e-6 if single else 1e-12
+            ok = abs(v - exp) <= tol
+            if not ok and b == 0 and a <= 0:
+                # signed zeros (IEEE, outside the model): -0.0 imaginary part gives -pi, -0.0 real part gives +-pi
+                ok = abs(abs(v) - np.pi) <= tol or (a == 0 and abs(v) <= tol)
+            if not ok:
+                dis.append(f"phase: position {k}: impl {v} vs angle of model value {s} = {exp}")
                 break
         return dis
     if mj.get("inexact"):
@@ -1241,7 +1267,8 @@ def compare(case, obs, rs):
                     dis.append(f"tdiv: position {k}: impl not finite, model {s}")
                     break
                 continue
-            if abs(F(z[0]) - a) > Fraction(2) ** -40 * Fraction(scale) or abs(F(z[1]) - b) > Fraction(2) ** -40 * Fraction(scale):
+            tol = Fraction(2) ** (-18 if single else -40) * Fraction(scale)
+            if abs(F(z[0]) - a) > tol or abs(F(z[1]) - b) > tol:
                 dis.append(f"tdiv: position {k}: impl {z} vs model {s}")
                 break
         return dis
